@@ -1,5 +1,6 @@
 // C05 driver: frozen corpus.
 //   drv_c05 freeze <dir> <seed> <n>     (run ONCE, by hand, to create /verif/corpus; never part of a check)
+//   drv_c05 freeze-big <dir> <seed>     (run ONCE, by hand, to create /verif/corpus_big: size-covering streams, see run_freeze_big)
 //   drv_c05 check  <dir> <testdata>     decode every frozen stream and every testdata/*.drc; one "Frozen" record per stream
 //   drv_c05 versions <dir>              rewrite the header version of a subset of streams to every (major, minor) in 0..3 x 0..5
 #include <dirent.h>
@@ -43,6 +44,84 @@ static int run_freeze(const std::string &dir, uint64_t seed, long n, const char 
         << ",\"gt\":\"" << (mesh ? "mesh" : "pc") << "\",\"method\":" << (int)(unsigned char)e.bytes[8] << ",\"es\":" << o.es << ",\"pred\":" << o.pred << ",\"builtin\":" << (o.builtin ? "true" : "false") << "}\n";
   }
   fprintf(stderr, "froze %ld streams\n", k);
+  return 0;
+}
+
+// Size-covering streams: the small geometries of run_freeze only ever produce small entropy-coding alphabets.  The bitstream-defining constants of the
+// symbol coders (rANS precision per alphabet bit length 1..18, tagged vs raw scheme, kd-tree levels) are reached by large alphabets only:
+//   point clouds with one int32 attribute uniform below 2^k, k = 1..17, 3*2^k+50 points (at most 70000), every second speed, sequential and kd-tree;
+//   grid meshes with quantised positions / normals / tex-coords, Edgebreaker (standard and valence) and sequential.
+static int run_freeze_big(const std::string &dir, uint64_t seed) {
+  vrt::Rng r(seed);
+  std::ofstream idx(dir + "/index.ndjson", std::ios::app);
+  long k = 0;
+  auto emit = [&](const Geom &g, const Opt &o, const char *what) {
+    Encoded e = encode(g, o);
+    if (!e.ok) { fprintf(stderr, "skip %s: %s\n", what, e.err.c_str()); return; }
+    Decoded d = decode(e.bytes.data(), e.bytes.size());
+    if (!d.ok) { fprintf(stderr, "skip %s: does not decode (%s)\n", what, d.err.c_str()); return; }
+    char name[64]; snprintf(name, sizeof name, "b%04ld.drc", k++);
+    std::ofstream f(dir + "/" + name, std::ios::binary); f.write(e.bytes.data(), e.bytes.size());
+    idx << "{\"file\":\"" << name << "\",\"digest\":" << h64(geom_digest(*d.pc, d.is_mesh)) << ",\"np\":" << d.pc->num_points() << ",\"nf\":" << (d.is_mesh ? d.mesh()->num_faces() : 0)
+        << ",\"gt\":\"" << (g.is_mesh ? "mesh" : "pc") << "\",\"method\":" << (int)(unsigned char)e.bytes[8] << ",\"es\":" << o.es << ",\"pred\":" << o.pred << ",\"builtin\":" << (o.builtin ? "true" : "false")
+        << ",\"what\":\"" << what << "\",\"bytes\":" << e.bytes.size() << "}\n";
+  };
+  for (int kb = 1; kb <= 17; ++kb) {
+    for (int variant = 0; variant < 3; ++variant) {
+      const int np = std::min(3 * (1 << kb) + 50, 70000);
+      Geom g; g.is_mesh = false; g.pc.reset(new PointCloud()); g.pc->set_num_points(np);
+      const int nc = variant == 2 ? 3 : 1;
+      AttDesc d{variant == 2 ? GeometryAttribute::POSITION : GeometryAttribute::GENERIC, DT_INT32, nc, false, true, np};
+      const int id = add_attribute(g.pc.get(), d, np);
+      for (int v = 0; v < np; ++v) { int32_t x[3]; for (int c = 0; c < nc; ++c) x[c] = (int32_t)r.below(1ull << kb); g.pc->attribute(id)->SetAttributeValue(AttributeValueIndex(v), x); }
+      Opt o; o.expert = true; o.qbits.assign(1, 0);
+      o.method = variant == 2 ? 1 : 0;                 // variant 2: kd-tree over 3 integer components
+      o.es = o.ds = (kb * 3 + variant * 4) % 11;
+      if (variant == 1) o.pred = PREDICTION_NONE;      // raw values instead of differences
+      char what[64]; snprintf(what, sizeof what, "pc int32 k=%d variant=%d", kb, variant);
+      emit(g, o, what);
+    }
+  }
+  for (int side : {12, 30, 55}) {
+    for (int variant = 0; variant < 6; ++variant) {
+      Geom g; g.is_mesh = true; g.pc.reset(new Mesh());
+      const int np = side * side;
+      g.pc->set_num_points(np);
+      AttDesc dp{GeometryAttribute::POSITION, DT_FLOAT32, 3, false, true, np};
+      const int ip = add_attribute(g.pc.get(), dp, np);
+      AttDesc dn{GeometryAttribute::NORMAL, DT_FLOAT32, 3, false, true, np};
+      const int in = add_attribute(g.pc.get(), dn, np);
+      AttDesc dt{GeometryAttribute::TEX_COORD, DT_FLOAT32, 2, false, true, np};
+      const int it = add_attribute(g.pc.get(), dt, np);
+      for (int y = 0; y < side; ++y) for (int x = 0; x < side; ++x) {
+        const int v = y * side + x;
+        const float z = (float)(std::sin(x * 0.37) * std::cos(y * 0.23) * 3.0 + r.unit() * 0.2);
+        const float p[3] = {(float)x + (float)(r.unit() * 0.3), (float)y + (float)(r.unit() * 0.3), z};
+        float nn[3] = {(float)(-0.37 * std::cos(x * 0.37)), (float)(0.23 * std::sin(y * 0.23)), 1.f};
+        const float l = std::sqrt(nn[0] * nn[0] + nn[1] * nn[1] + nn[2] * nn[2]); for (float &q : nn) q /= l;
+        const float t[2] = {(float)x / side, (float)y / side};
+        g.pc->attribute(ip)->SetAttributeValue(AttributeValueIndex(v), p);
+        g.pc->attribute(in)->SetAttributeValue(AttributeValueIndex(v), nn);
+        g.pc->attribute(it)->SetAttributeValue(AttributeValueIndex(v), t);
+      }
+      for (int y = 0; y + 1 < side; ++y) for (int x = 0; x + 1 < side; ++x) {
+        if ((x * 7 + y * 3) % 41 == 0) continue;      // holes
+        const int a = y * side + x;
+        Mesh::Face f1, f2;
+        f1[0] = PointIndex(a); f1[1] = PointIndex(a + 1); f1[2] = PointIndex(a + side);
+        f2[0] = PointIndex(a + 1); f2[1] = PointIndex(a + side + 1); f2[2] = PointIndex(a + side);
+        g.mesh()->AddFace(f1); g.mesh()->AddFace(f2);
+      }
+      Opt o; o.expert = true;
+      o.qbits = {variant % 2 ? 11 : 14, variant % 3 ? 8 : 10, 12};
+      o.method = variant == 5 ? 0 : 1;
+      o.submethod = variant == 5 ? -1 : (variant % 2 ? 2 : 0);
+      o.es = o.ds = (variant * 2 + side) % 11;
+      char what[64]; snprintf(what, sizeof what, "grid mesh side=%d variant=%d", side, variant);
+      emit(g, o, what);
+    }
+  }
+  fprintf(stderr, "froze %ld size-covering streams\n", k);
   return 0;
 }
 
@@ -96,6 +175,7 @@ static int run_versions(const std::string &dir) {
 
 int main(int argc, char **argv) {
   if (argc >= 5 && !strcmp(argv[1], "freeze")) return run_freeze(argv[2], strtoull(argv[3], 0, 10), atol(argv[4]), argc >= 6 ? argv[5] : "g", argc >= 7 ? atoi(argv[6]) : -1);
+  if (argc >= 4 && !strcmp(argv[1], "freeze-big")) return run_freeze_big(argv[2], strtoull(argv[3], 0, 10));
   if (argc >= 3 && !strcmp(argv[1], "check")) return run_check(argv[2]);
   if (argc >= 3 && !strcmp(argv[1], "digest")) { check_one(argv[2], slurp(argv[2]), nullptr); return 0; }
   if (argc >= 3 && !strcmp(argv[1], "versions")) return run_versions(argv[2]);
